@@ -134,6 +134,8 @@ func (o *recObs) BeforeWrite(s *quic.Stream, p []byte) (int, quic.Fault) {
 
 type c04Run struct {
 	kill     int    // kill the receiver at its k-th fs hook call (0 = never)
+	abort    bool   // ... after flushing all metadata first, as the application does on SIGINT
+	aborting bool
 	cutKind  string // or cut the connection
 	cutPos   int64
 	from     *crashState
@@ -153,6 +155,7 @@ func c04Env(p *Prepared, r *c04Run) *Env {
 	env.BeforeRun = func(p *Prepared, outDir string) {
 		c04cur = r
 		r.hooks = 0
+		r.aborting = false
 		r.snapHash, r.snapDir = "", ""
 		r.obs.log, r.obs.total, r.obs.fired = nil, 0, false
 		if r.from != nil && r.from.Dir != "" {
@@ -161,10 +164,31 @@ func c04Env(p *Prepared, r *c04Run) *Env {
 			}
 		}
 		vrt.FsHook = func(op, path, phase string) error {
-			if vrt.CurrentGroup() != "R" {
+			if vrt.CurrentGroup() != "R" || r.aborting {
 				return nil
 			}
 			r.hooks++
+			if r.kill > 0 && r.hooks == r.kill && r.abort {
+				// SIGINT lands here: the application's handler flushes all resume metadata
+				// and exits. It runs as a thread of its own; the interrupted thread stands
+				// still meanwhile (if it holds a lock the handler needs, the run deadlocks and
+				// is discarded - the signal then simply took effect a little later, which
+				// another k covers).
+				r.aborting = true
+				flushed := false
+				vrt.GoNamed("sigint", "R", func() {
+					transfer.FlushAllFlushers()
+					flushed = true
+					c04seq++
+					r.snapDir = filepath.Join(scratch, fmt.Sprintf("snap%d", c04seq))
+					os.RemoveAll(r.snapDir)
+					copyTree(outDir, r.snapDir)
+					r.snapHash = hashDir(r.snapDir)
+					vrt.Exit(137)
+				})
+				vrt.Block("interrupted", func() bool { return flushed })
+				return nil
+			}
 			if r.kill > 0 && r.hooks == r.kill {
 				// the process dies here: what is on disk now is the crash state
 				c04seq++
@@ -191,7 +215,7 @@ type c04Replay struct {
 }
 
 func modeC04() {
-	res.Rule = "breadth-first search over crash states of the output directory: from every state, kill the receiver at each of its file-system points (split writes included) and cut the connection at a stride of byte positions; states deduplicated by content hash; in every reachable state the run to completion must succeed, yield the identical tree and advertise at least the chunks the on-disk metadata marks; non-trivial = distinct crash state"
+	res.Rule = "breadth-first search over crash states of the output directory: from every state, kill the receiver at each of its file-system points (split writes included), interrupt it there the way SIGINT does (flush all metadata, then exit), and cut the connection at a stride of byte positions; states deduplicated by content hash; in every reachable state the run to completion must succeed, yield the identical tree and advertise at least the chunks the on-disk metadata marks; non-trivial = distinct crash state"
 	thorough := vlib.F.Tier == "thorough"
 	maxDepth := 2
 	if thorough {
@@ -290,6 +314,18 @@ func modeC04() {
 				ntrans++
 				if x.Outcome == "exit" && r.snapHash != "" {
 					addState(s, fmt.Sprintf("kill-receiver@fs%d", k), r.snapHash, r.snapDir)
+				}
+				// the same point, interrupted the polite way (SIGINT: flush metadata, then exit)
+				if !thorough && s.Depth > 0 {
+					continue // SIGINT-style interruptions from root states only in the quick tier
+				}
+				ra := &c04Run{from: s, kill: k, abort: true}
+				xa := vrt.Run(c04Cfg(), nil, func() { runTransfer(p, c04Env(p, ra)) })
+				st.execs++
+				st.steps += int64(xa.Steps())
+				ntrans++
+				if xa.Outcome == "exit" && ra.snapHash != "" {
+					addState(s, fmt.Sprintf("sigint-receiver@fs%d", k), ra.snapHash, ra.snapDir)
 				}
 			}
 			stride := int64(7)
@@ -424,6 +460,8 @@ func replayC04(p *Prepared, rp replayT) {
 		var pos int64
 		if n, _ := fmt.Sscanf(h, "kill-receiver@fs%d", &k); n == 1 {
 			r.kill = k
+		} else if n, _ := fmt.Sscanf(h, "sigint-receiver@fs%d", &k); n == 1 {
+			r.kill, r.abort = k, true
 		} else if n, _ := fmt.Sscanf(h, "loss@byte%d", &pos); n == 1 {
 			r.cutKind, r.cutPos = "loss", pos
 		} else if n, _ := fmt.Sscanf(h, "peerclose@byte%d", &pos); n == 1 {
